@@ -668,4 +668,88 @@ theorem spec_missing_iff (srcs : Srcs) (m : Mod) :
         intro ⟨w, hw, hcw⟩
         exact hnc ⟨w, .step ⟨s, u, hl, hm⟩ hw, hcw⟩
 
+/-! ### Cycles, for the engine as it is -/
+
+theorem getM_cycle_iff (st : St) (late : List Mod) (h : Inv2 st late) (m : Mod) :
+    (getM st m).1 = .err .cycle ↔ ReachesCycle (effSrcs st.srcs late) m := by
+  rw [(getM_eff st late m h).1]
+  exact spec_cycle_iff _ m
+
+/-! ### Every (revision, module) pair occurs at most once in the trace of body runs -/
+
+/-- The bodies run by each step of a history, tagged with the revision they ran in. -/
+def runsOf (fixed : Bool) : St → List Op → List (Nat × Mod)
+  | _, [] => []
+  | st, op :: ops =>
+    let st' := step fixed st op
+    let new := if st'.rev = st.rev then st'.cache.log.drop st.cache.log.length else st'.cache.log
+    new.map (fun x => (st'.rev, x)) ++ runsOf fixed st' ops
+
+theorem step_rev (fixed : Bool) (st : St) (op : Op) :
+    (step fixed st op).rev = st.rev ∨
+      ((step fixed st op).rev = st.rev + 1 ∧ (step fixed st op).cache.log = []) := by
+  cases op with
+  | get m => exact .inl rfl
+  | set m t =>
+    simp only [step, setSrc]
+    cases st.srcs.lookup m with
+    | none => cases fixed <;> simp [St.bump]
+    | some old =>
+      simp only []
+      split
+      · exact .inl rfl
+      · exact .inr ⟨rfl, rfl⟩
+
+theorem runsOf_nodup (fixed : Bool) (ops : List Op) :
+    ∀ st, J st.cache →
+      (st.cache.log.map (fun x => (st.rev, x)) ++ runsOf fixed st ops).Nodup ∧
+      ∀ p ∈ runsOf fixed st ops, st.rev ≤ p.1 := by
+  induction ops with
+  | nil =>
+    intro st hj
+    simp only [runsOf, List.append_nil]
+    refine ⟨?_, fun _ h => by cases h⟩
+    exact List.Nodup.map (fun a b e => by cases e; rfl) hj.1
+  | cons op ops ih =>
+    intro st hj
+    have hj' := step_J fixed st op hj
+    obtain ⟨ih1, ih2⟩ := ih (step fixed st op) hj'
+    simp only [runsOf]
+    cases step_rev fixed st op with
+    | inl hr =>
+      obtain ⟨t, ht⟩ := step_log_prefix fixed st op hr
+      rw [if_pos hr]
+      have hd : (step fixed st op).cache.log.drop st.cache.log.length = t := by
+        rw [← ht]; simp
+      rw [hd]
+      constructor
+      · rw [← ht, hr, List.map_append, List.append_assoc] at ih1
+        rw [hr]
+        exact ih1
+      · intro p hp
+        rw [List.mem_append] at hp
+        cases hp with
+        | inl hp =>
+          obtain ⟨x, _, rfl⟩ := List.mem_map.mp hp
+          simp [hr]
+        | inr hp => have := ih2 p hp; omega
+    | inr hr =>
+      obtain ⟨hr, hlog⟩ := hr
+      have hne : ¬ (step fixed st op).rev = st.rev := by omega
+      rw [if_neg hne, hlog]
+      rw [hlog] at ih1
+      simp only [List.map_nil, List.nil_append] at ih1 ⊢
+      constructor
+      · rw [List.nodup_append]
+        refine ⟨List.Nodup.map (fun a b e => by cases e; rfl) hj.1, ih1, ?_⟩
+        intro a ha b hb e
+        subst e
+        obtain ⟨x, _, rfl⟩ := List.mem_map.mp ha
+        have := ih2 _ hb
+        simp only at this
+        omega
+      · intro p hp
+        have := ih2 p hp
+        omega
+
 end GluonModel.Memo.Proofs
